@@ -78,13 +78,13 @@ func runOverlayTest(repo, rel, testFile, testName string) (bool, string) {
 	os.WriteFile(ovPath, ob, 0o644)
 	ctx, cancel := context.WithTimeout(context.Background(), 180*time.Second)
 	defer cancel()
-	cmd := exec.CommandContext(ctx, "go", "test", "-overlay", ovPath, "-vet=off", "-count=1", "-timeout", "60s", "-modfile="+mf, "-run", "^"+testName+"$", "./"+rel)
+	cmd := exec.CommandContext(ctx, "go", "test", "-v", "-overlay", ovPath, "-vet=off", "-count=1", "-timeout", "170s", "-modfile="+mf, "-run", "^"+testName+"$", "./"+rel)
 	cmd.Dir = repo
 	cmd.Env = append(os.Environ(), "GOFLAGS=-mod=mod", "GOPROXY=off", "GOSUMDB=off", "GOTOOLCHAIN=local", "GOWORK=off")
 	out, err := cmd.CombinedOutput()
 	s := string(out)
-	if len(s) > 6000 {
-		s = s[:6000] + "\n...[truncated]"
+	if len(s) > 8000 {
+		s = s[:2000] + "\n...[truncated]...\n" + s[len(s)-6000:]
 	}
 	failed := err != nil && strings.Contains(s, "--- FAIL: "+testName)
 	return failed, s
@@ -124,4 +124,42 @@ func cmdReplay(args []string) int {
 		return 1
 	}
 	return 0
+}
+
+// runScratchModuleTest: for packages that cannot be loaded in place offline (tools/god/util/*): the package's
+// non-test sources are copied byte-for-byte into a scratch module with the given go.mod text, together with the
+// test, and run there. Returns (failed, output).
+func runScratchModuleTest(verif, repo, prop, rel, testFile, testName, modText string) (bool, string) {
+	dir, err := os.MkdirTemp("", "govc-scratch-")
+	if err != nil {
+		return false, err.Error()
+	}
+	defer os.RemoveAll(dir)
+	src := filepath.Join(repo, rel)
+	ents, err := os.ReadDir(src)
+	if err != nil {
+		return false, err.Error()
+	}
+	for _, e := range ents {
+		n := e.Name()
+		if e.IsDir() || !strings.HasSuffix(n, ".go") || strings.HasSuffix(n, "_test.go") || n == "zz_contracts_verif.go" {
+			continue
+		}
+		b, _ := os.ReadFile(filepath.Join(src, n))
+		os.WriteFile(filepath.Join(dir, n), b, 0o644)
+	}
+	tb, _ := os.ReadFile(testFile)
+	os.WriteFile(filepath.Join(dir, "zz_verif_bounded_test.go"), tb, 0o644)
+	os.WriteFile(filepath.Join(dir, "go.mod"), []byte(modText), 0o644)
+	ctx, cancel := context.WithTimeout(context.Background(), 600*time.Second)
+	defer cancel()
+	cmd := exec.CommandContext(ctx, "go", "test", "-v", "-vet=off", "-count=1", "-timeout", "540s", "-run", "^"+testName+"$", ".")
+	cmd.Dir = dir
+	cmd.Env = append(os.Environ(), "GOFLAGS=-mod=mod", "GOPROXY=off", "GOSUMDB=off", "GOTOOLCHAIN=local", "GOWORK=off")
+	out, err := cmd.CombinedOutput()
+	s := string(out)
+	if len(s) > 8000 {
+		s = s[:2000] + "\n...[truncated]...\n" + s[len(s)-6000:]
+	}
+	return err != nil && strings.Contains(s, "--- FAIL: "+testName), s
 }
